@@ -142,7 +142,7 @@ def run(ctx):
     import concurrent.futures as cf
     cfgs = [dict(N=3, S=2, MaxBars=3), dict(N=4, S=3, MaxBars=2), dict(N=5, S=2, MaxBars=2), dict(N=6, S=4, MaxBars=2), dict(N=4, S=2, MaxBars=3), dict(N=5, S=1, MaxBars=3)]
     if not quick:
-        cfgs += [dict(N=6, S=3, MaxBars=2), dict(N=4, S=4, MaxBars=3), dict(N=5, S=2, MaxBars=3), dict(N=7, S=2, MaxBars=2), dict(N=3, S=4, MaxBars=4)]
+        cfgs += [dict(N=6, S=3, MaxBars=2), dict(N=4, S=4, MaxBars=3), dict(N=5, S=2, MaxBars=3), dict(N=7, S=2, MaxBars=2), dict(N=3, S=3, MaxBars=4)]
     def one(c):
         return c, tlc.run_tlc("GridLandscape", workers=4, constants=c, invariants=["HalfStep", "ExactOnGrid", "SnapWithinHalf", "AssembleIsKth"], heap="4g", timeout=7200)
     with cf.ThreadPoolExecutor(4) as ex:
